@@ -119,6 +119,23 @@ def r4e_for_enumerate(text):
     return "".join(out), n
 
 
+def r4c_for_chars(text):
+    """R4c: `for c in S.chars() {` -> index loop over the chars (vstd: unicode_len / get_char)."""
+    n = 0
+    rx = re.compile(r"for\s+(?P<c>\w+)\s+in\s+(?P<s>[A-Za-z_][\w\.]*?)\.chars\(\)\s*\{")
+    out, pos = [], 0
+    for m in rx.finditer(text):
+        k = _fresh()
+        s_ = m.group("s")
+        new = "let mut %s: usize = 0; while %s < %s.unicode_len() { let %s = %s.get_char(%s); %s += 1;" % (k, k, s_, m.group("c"), s_, k, k)
+        out.append(text[pos:m.start()])
+        out.append(_pad(m.group(0), new))
+        pos = m.end()
+        n += 1
+    out.append(text[pos:])
+    return "".join(out), n
+
+
 def r5_for_zip(text):
     """R5: `for (a, b) in X.iter().zip(Y)` / `.zip(Y.iter())` -> index loop to min len."""
     n = 0
@@ -290,6 +307,7 @@ def named_ret(text, name="r"):
 RULES = {
     "R4": r4_for_iter,
     "R4b": r4b_for_by_value,
+    "R4c": r4c_for_chars,
     "R4e": r4e_for_enumerate,
     "R5": r5_for_zip,
     "R6": r6_for_rev,
